@@ -14,10 +14,7 @@ QFault == [start |-> 2, stop |-> 1, kill |-> 0, post |-> 2, sil |-> 0, exp |-> 0
 SoloStop == [start |-> 1, stop |-> 1, kill |-> 0, post |-> 3, sil |-> 1, exp |-> 1]
 SoloKill == [start |-> 1, stop |-> 0, kill |-> 1, post |-> 3, sil |-> 1, exp |-> 0]
 Restarts == [start |-> 2, stop |-> 1, kill |-> 1, post |-> 3, sil |-> 1, exp |-> 1]
-FaultStop == [start |-> 2, stop |-> 1, kill |-> 0, post |-> 2, sil |-> 1, exp |-> 0]
 FaultKill == [start |-> 2, stop |-> 0, kill |-> 1, post |-> 2, sil |-> 0, exp |-> 0]
-Faults == [start |-> 2, stop |-> 1, kill |-> 1, post |-> 3, sil |-> 1, exp |-> 0]
-Faults3 == [start |-> 2, stop |-> 1, kill |-> 1, post |-> 2, sil |-> 0, exp |-> 0]
 
 OnePost == [start |-> 0, stop |-> 0, kill |-> 0, post |-> 1, sil |-> 0, exp |-> 0]
 GenRestart == [start |-> 2, stop |-> 1, kill |-> 1, post |-> 3, sil |-> 1, exp |-> 0]
